@@ -293,6 +293,22 @@ def extra_bases() -> List[Dict[str, Any]]:
         Menu(title="m", depends=[S("G")], children=[ch("c1", [Cfg("A", "bool", prompt="a"), Cfg("B", "bool", prompt="b")])]),
         Cfg("T", "string", prompt="t", defaults=[(L('"a"'), S("A")), (L('"b"'), None)]),
     ]), "setters": {}})
+    # a range bound taken from an option that has no value in some configurations (no default, unavailable unless ADV):
+    # the bound then counts as 0; the tree is acyclic and has to evaluate whatever ADV / LIMIT / TOP / FLOOR are
+    out.append({"kind": "range_bound_without_value", "prog": Program(children=[
+        Cfg("ADV", "bool", prompt="adv"),
+        Cfg("LIMIT", "int", prompt="limit", depends=[S("ADV")]),
+        Cfg("TOP", "hex", prompt="top", depends=[S("ADV")]),
+        Cfg("FLOOR", "int", prompt="floor", depends=[S("ADV")]),
+        Cfg("COUNT", "int", prompt="count", ranges=[(L("1"), S("LIMIT"), None)], defaults=[(L("8"), None)]),
+        Cfg("ADDR", "hex", prompt="addr", ranges=[(L("0x10"), S("TOP"), None)], defaults=[(L("0x20"), None)]),
+        Cfg("DEPTH", "int", prompt="depth", ranges=[(S("FLOOR"), L("100"), None)], defaults=[(L("5"), None)]),
+    ]), "setters": {}})
+    out.append({"kind": "float_range_bound_without_value", "prog": Program(children=[
+        Cfg("ADV", "bool", prompt="adv"),
+        Cfg("FTOP", "float", prompt="ftop", depends=[S("ADV")]),
+        Cfg("RATIO", "float", prompt="ratio", ranges=[(L("0.5"), S("FTOP"), None)], defaults=[(L("1.5"), None)]),
+    ]), "setters": {}})
     return out
 
 
